@@ -45,6 +45,7 @@ static const vector<Cfg>& cfgs() {
     {6.4e6, 0.9, true, 3}, {6.4e6, -9.0, true, 3},                                  // 16,17  b/a = 1/10, 10
     {1.0, 0.98, true, 3}, {6.4e6, -49.0, true, 3},                                  // 18,19  b/a = 1/50, 50
     {6371000.0, 0.0, false, 0}, {6371000.0, 0.0, true, 0},                          // 20,21  sphere
+    {1.0, 1 - 1.0 / 90, true, 3}, {6.4e6, -89.0, true, 3},                          // 22,23  b/a = 1/90, 90 (documented: 1/100 < b/a < 100)
   };
   return C;
 }
@@ -292,25 +293,126 @@ static DirOut do_direct(int ci, double lat1, double lon1, double azi12, double s
   return o;
 }
 
+
+// ------------------------------------------------------------------ call forms and output masks
+// A mask of the specification (bits 0..5 = LATITUDE, LONGITUDE, AZIMUTH, DISTANCE, AREA, LONG_UNROLL) translated with the
+// enum constants of the class that is called.
+static int kappa(const Cfg& C);
+static unsigned rmask(int m) {
+  return (m & 1 ? unsigned(Rhumb::LATITUDE) : 0U) | (m & 2 ? unsigned(Rhumb::LONGITUDE) : 0U) | (m & 4 ? unsigned(Rhumb::AZIMUTH) : 0U)
+       | (m & 8 ? unsigned(Rhumb::DISTANCE) : 0U) | (m & 16 ? unsigned(Rhumb::AREA) : 0U) | (m & 32 ? unsigned(Rhumb::LONG_UNROLL) : 0U);
+}
+static unsigned lmask(int m) {
+  return (m & 1 ? unsigned(RhumbLine::LATITUDE) : 0U) | (m & 2 ? unsigned(RhumbLine::LONGITUDE) : 0U) | (m & 4 ? unsigned(RhumbLine::AZIMUTH) : 0U)
+       | (m & 8 ? unsigned(RhumbLine::DISTANCE) : 0U) | (m & 16 ? unsigned(RhumbLine::AREA) : 0U) | (m & 32 ? unsigned(RhumbLine::LONG_UNROLL) : 0U);
+}
+static const unsigned SENT = 7;
+// observation code of one output argument (see RhumbLattice.tla): 1 still the sentinel, 2 bit-identical to the general
+// routine with ALL, 4 bit-identical to the general routine with ALL | LONG_UNROLL, 8 finite and outside [-180, 180]
+static long long ocode(double v, double refn, double refu, bool lon) {
+  long long c = 0;
+  if (vt::is_sentinel(v, SENT)) c |= 1;
+  if (vt::bits(v) == vt::bits(refn)) c |= 2;
+  if (vt::bits(v) == vt::bits(refu)) c |= 4;
+  if (lon && std::isfinite(v) && fabs(v) > 180) c |= 8;
+  return c;
+}
+struct Obs { vector<long long> o, c; double v[3]; };      // codes, classes and values of the (up to) three output arguments
+// the results of the general routines with ALL and with ALL | LONG_UNROLL: the values every call form must reproduce
+struct DirRef { double lat, lon, S, latu, lonu, Su; };
+static DirRef dir_ref(const Rhumb& r, double lat1, double lon1, double azi12, double s12) {
+  DirRef R; R.lat = R.lon = R.S = R.latu = R.lonu = R.Su = vt::sentinel(SENT);
+  r.GenDirect(lat1, lon1, azi12, s12, Rhumb::ALL, R.lat, R.lon, R.S);
+  r.GenDirect(lat1, lon1, azi12, s12, Rhumb::ALL | Rhumb::LONG_UNROLL, R.latu, R.lonu, R.Su);
+  return R;
+}
+static Obs dir_form(const Rhumb& r, const string& form, int m, double lat1, double lon1, double azi12, double s12, const DirRef& R) {
+  double la = vt::sentinel(SENT), lo = vt::sentinel(SENT), S = vt::sentinel(SENT); bool hasS = true;
+  if (form == "GenDirect") r.GenDirect(lat1, lon1, azi12, s12, rmask(m), la, lo, S);
+  else if (form == "Direct3") r.Direct(lat1, lon1, azi12, s12, la, lo, S);
+  else if (form == "Direct2") { r.Direct(lat1, lon1, azi12, s12, la, lo); hasS = false; }
+  else {
+    Rhumb::LineClass ln = r.Line(lat1, lon1, azi12);
+    if (form == "GenPosition") ln.GenPosition(s12, lmask(m), la, lo, S);
+    else if (form == "Position3") ln.Position(s12, la, lo, S);
+    else { ln.Position(s12, la, lo); hasS = false; }
+  }
+  Obs b; b.v[0] = la; b.v[1] = lo; b.v[2] = S;
+  b.o = {ocode(la, R.lat, R.latu, false), ocode(lo, R.lon, R.lonu, true), hasS ? ocode(S, R.S, R.Su, false) : -1};
+  b.c = {vt::cls(la), vt::cls(lo), hasS ? vt::cls(S) : -1};
+  return b;
+}
+struct InvRef { double s12, azi12, S12; };
+static InvRef inv_ref(const Rhumb& r, double lat1, double lon1, double lat2, double lon2) {
+  InvRef R; R.s12 = R.azi12 = R.S12 = vt::sentinel(SENT);
+  r.GenInverse(lat1, lon1, lat2, lon2, Rhumb::ALL, R.s12, R.azi12, R.S12);
+  return R;
+}
+static Obs inv_form(const Rhumb& r, const string& form, int m, double lat1, double lon1, double lat2, double lon2, const InvRef& R) {
+  double s = vt::sentinel(SENT), az = vt::sentinel(SENT), S = vt::sentinel(SENT); bool hasS = true;
+  if (form == "GenInverse") r.GenInverse(lat1, lon1, lat2, lon2, rmask(m), s, az, S);
+  else if (form == "Inverse3") r.Inverse(lat1, lon1, lat2, lon2, s, az, S);
+  else { r.Inverse(lat1, lon1, lat2, lon2, s, az); hasS = false; }
+  Obs b; b.v[0] = s; b.v[1] = az; b.v[2] = S;
+  b.o = {ocode(s, R.s12, R.s12, false), ocode(az, R.azi12, R.azi12, false), hasS ? ocode(S, R.S12, R.S12, false) : -1};
+  b.c = {vt::cls(s), vt::cls(az), hasS ? vt::cls(S) : -1};
+  return b;
+}
+// every call form of a problem for a record of the seeded random stage: the two general routines with the mask m,
+// every overload, and the general routines with ALL as seen through the 3-argument overloads
+static void dir_forms(Rec& r, const Rhumb& rh, int m, double lat1, double lon1, double azi12, double s12) {
+  DirRef R = dir_ref(rh, lat1, lon1, azi12, s12);
+  r.i("mm", m).li("gd", dir_form(rh, "GenDirect", m, lat1, lon1, azi12, s12, R).o).li("gp", dir_form(rh, "GenPosition", m, lat1, lon1, azi12, s12, R).o)
+   .li("d3", dir_form(rh, "Direct3", 0, lat1, lon1, azi12, s12, R).o).li("d2", dir_form(rh, "Direct2", 0, lat1, lon1, azi12, s12, R).o)
+   .li("p3", dir_form(rh, "Position3", 0, lat1, lon1, azi12, s12, R).o).li("p2", dir_form(rh, "Position2", 0, lat1, lon1, azi12, s12, R).o);
+}
+static void inv_forms(Rec& r, const Rhumb& rh, int m, double lat1, double lon1, double lat2, double lon2) {
+  InvRef R = inv_ref(rh, lat1, lon1, lat2, lon2);
+  r.i("mm", m).li("gi", inv_form(rh, "GenInverse", m, lat1, lon1, lat2, lon2, R).o)
+   .li("i3", inv_form(rh, "Inverse3", 0, lat1, lon1, lat2, lon2, R).o).li("i2", inv_form(rh, "Inverse2", 0, lat1, lon1, lat2, lon2, R).o);
+}
+// members of the constructor family that must build the same solver: the default argument exact = false and the
+// WGS84 singleton.  1 = bit-identical results, 0 = not, -1 = the configuration is not a member's
+static bool same3(double a, double b, double c, double x, double y, double z) {
+  return vt::bits(a) == vt::bits(x) && vt::bits(b) == vt::bits(y) && vt::bits(c) == vt::bits(z);
+}
+static const Rhumb* default_rhumb(int ci) {
+  static vector<unique_ptr<Rhumb>> R(cfgs().size());
+  if (cfgs()[ci].exact) return nullptr;
+  if (!R[ci]) R[ci].reset(new Rhumb(cfgs()[ci].a, cfgs()[ci].f));
+  return R[ci].get();
+}
+static bool is_wgs84_series(int ci) { return cfgs()[ci].a == 6378137.0 && cfgs()[ci].f == 1 / 298.257223563 && !cfgs()[ci].exact; }
+
 // ------------------------------------------------------------------ lattice replays
 // unit of length on configuration ci corresponding to one degree of rectifying latitude
 static double unit_len(int ci) { return ci <= 1 ? 1.0 : ellip(ci).QuarterMeridian() / 90; }
-static const vector<int>& lattice_cfgs(bool all) {
-  static const vector<int> few = {0, 1, 3, 15}, many = {0, 1, 2, 3, 11, 14, 15};
+// k1 = 0 vectors are also run on the extreme exact configurations f = 0.98 and f = -49 (thorough: also b/a = 1/10, 10, 1/90, 90):
+// discrete content, pole and zero areas, and (not for f >= 0.9) the meridian arcs
+static vector<int> lattice_cfgs(bool all, long long k1) {
+  vector<int> c = all ? vector<int>{0, 1, 2, 3, 11, 14, 15} : vector<int>{0, 1, 3, 15};
+  if (k1 == 0) { c.push_back(18); c.push_back(19); if (all) { c.push_back(16); c.push_back(17); c.push_back(22); c.push_back(23); } }
+  return c;
+}
+static const vector<int>& mask_cfgs(bool all) {
+  static const vector<int> few = {1, 2}, many = {1, 2, 15};
   return all ? many : few;
 }
+// integer multiples of the unit of length are lattice values of the model: not where a recorded accuracy defect of the
+// length exceeds the lattice tolerance (exact, f >= 0.9: DIsometric, notes/C09.md F4)
+static bool len_lattice(int ci) { return !(cfgs()[ci].exact && cfgs()[ci].f >= 0.9); }
 
 // li lat1 k1 lat2 k2 d all
 static void do_li(const vector<string>& t) {
   int lat1 = atoi(t[1].c_str()), lat2 = atoi(t[3].c_str()); long long k1 = atoll(t[2].c_str()), k2 = atoll(t[4].c_str());
   int d = atoi(t[5].c_str()); bool all = atoi(t[6].c_str()) != 0;
   double lon1 = double(k1), lon2 = vt::eps(k2, d);
-  for (int ci : lattice_cfgs(all)) {
+  for (int ci : lattice_cfgs(all, k1)) {
     InvOut o = do_inverse(ci, lat1, lon1, lat2, lon2);
     InvOut w = do_inverse(ci, lat2, lon2, lat1, lon1);
     const EL& E = ell(ci);
     double strip = double(E.c2) * Math::degree();       // area c^2 * 1 degree: S12 / strip = lon12 * <sin xi>
-    bool mul = ci <= 1 || ((lat1 == 0 || abs(lat1) == 90) && (lat2 == 0 || abs(lat2) == 90));   // rectifying latitudes are integers
+    bool mul = ci <= 1 || (len_lattice(ci) && (lat1 == 0 || abs(lat1) == 90) && (lat2 == 0 || abs(lat2) == 90));   // rectifying latitudes are integers
     Rec r; r.str("e", "li").i("ci", ci).b("sph", ci <= 1).b("mul", mul).i("lat1", lat1).i("k1", k1).i("lat2", lat2).i("k2", k2).i("d", d)
       .str("tie", tie_class(lon1, lon2))
       .i("cs", vt::cls(o.s12)).i("ca", vt::cls(o.azi12)).i("cS", vt::cls(o.S12))
@@ -326,19 +428,79 @@ static void do_li(const vector<string>& t) {
 static void do_ld(const vector<string>& t) {
   int lat1 = atoi(t[1].c_str()); long long k1 = atoll(t[2].c_str()); int azi = atoi(t[3].c_str()); long long s = atoll(t[4].c_str());
   bool all = atoi(t[5].c_str()) != 0;
-  for (int ci : lattice_cfgs(all)) {
+  for (int ci : lattice_cfgs(all, k1)) {
     if (ci > 1 && !(lat1 == 0 || abs(lat1) == 90)) continue;        // off the sphere only mu = phi latitudes stay on the lattice
     double s12 = double(s) * unit_len(ci);
     DirOut o = do_direct(ci, lat1, double(k1), azi, s12);
     const EL& E = ell(ci);
     double strip = double(E.c2) * Math::degree();
-    Rec r; r.str("e", "ld").i("ci", ci).b("sph", ci <= 1).i("lat1", lat1).i("k1", k1).i("azi", azi).i("s", s)
+    Rec r; r.str("e", "ld").i("ci", ci).b("sph", ci <= 1).i("kap", kappa(cfgs()[ci])).i("lat1", lat1).i("k1", k1).i("azi", azi).i("s", s)
       .i("cl", vt::cls(o.lat2)).i("cn", vt::cls(o.lon2)).i("cu", vt::cls(o.lon2u)).i("cS", vt::cls(o.S12))
       .b("pe", o.pe).b("ue", o.ue)
       .li("lat2", pico(o.lat2)).li("lon2", pico(o.lon2)).li("lon2u", pico(o.lon2u)).li("S", pico(o.S12 / strip))
       .i("dls", sgn(o.lat2 - lat1)).i("dus", sgn(o.lon2u - double(k1)))
       .b("rng", fabs(o.lat2) <= 90 && (std::isnan(o.lon2) || fabs(o.lon2) <= 180));
     r.emit();
+  }
+}
+
+// lm lat1 k1 azi s form m all      one call form of the direct problem with the output mask m
+static void do_lm(const vector<string>& t) {
+  int lat1 = atoi(t[1].c_str()); long long k1 = atoll(t[2].c_str()); int azi = atoi(t[3].c_str()); long long s = atoll(t[4].c_str());
+  string form = t[5]; int m = atoi(t[6].c_str()); bool all = atoi(t[7].c_str()) != 0;
+  for (int ci : mask_cfgs(all)) {
+    if (ci > 1 && !(lat1 == 0 || abs(lat1) == 90)) continue;
+    const Rhumb& rh = rhumb(ci);
+    double s12 = double(s) * unit_len(ci);
+    DirRef R = dir_ref(rh, lat1, double(k1), azi, s12);
+    Obs b = dir_form(rh, form, m, lat1, double(k1), azi, s12, R);
+    Rec r; r.str("e", "lm").i("ci", ci).b("sph", ci <= 1).i("kap", kappa(cfgs()[ci])).i("lat1", lat1).i("k1", k1).i("azi", azi).i("s", s).str("form", form).i("m", m)
+      .li("o", b.o).li("c", b.c).li("lat2", pico(b.v[0]))
+      .li("rc", {vt::cls(R.lat), vt::cls(R.lon), vt::cls(R.lonu), vt::cls(R.S)}).b("rue", vt::bits(R.lat) == vt::bits(R.latu) && vt::bits(R.S) == vt::bits(R.Su));
+    r.emit();
+  }
+}
+// im lat1 k1 lat2 k2 d form m all  one call form of the inverse problem with the output mask m
+static void do_im(const vector<string>& t) {
+  int lat1 = atoi(t[1].c_str()), lat2 = atoi(t[3].c_str()); long long k1 = atoll(t[2].c_str()), k2 = atoll(t[4].c_str());
+  int d = atoi(t[5].c_str()); string form = t[6]; int m = atoi(t[7].c_str()); bool all = atoi(t[8].c_str()) != 0;
+  double lon1 = double(k1), lon2 = vt::eps(k2, d);
+  for (int ci : mask_cfgs(all)) {
+    const Rhumb& rh = rhumb(ci);
+    InvRef R = inv_ref(rh, lat1, lon1, lat2, lon2);
+    Obs b = inv_form(rh, form, m, lat1, lon1, lat2, lon2, R);
+    Rec r; r.str("e", "im").i("ci", ci).i("lat1", lat1).i("k1", k1).i("lat2", lat2).i("k2", k2).i("d", d).str("form", form).i("m", m)
+      .li("o", b.o).li("c", b.c).li("rc", {vt::cls(R.s12), vt::cls(R.azi12), vt::cls(R.S12)});
+    r.emit();
+  }
+}
+
+// lp lat1 k1 azi sa sb all      two positions on ONE line object: the second one (sb) is observed after the line and a copy
+// of it have been used for sa; written as an ld record of the problem (lat1, k1, azi, sb) with the history in "hist"
+static void do_lp(const vector<string>& t) {
+  int lat1 = atoi(t[1].c_str()); long long k1 = atoll(t[2].c_str()); int azi = atoi(t[3].c_str());
+  long long sa = atoll(t[4].c_str()), sb = atoll(t[5].c_str()); bool all = atoi(t[6].c_str()) != 0;
+  for (int ci : mask_cfgs(all)) {
+    if (ci > 1 && !(lat1 == 0 || abs(lat1) == 90)) continue;
+    const Rhumb& r = rhumb(ci); const EL& E = ell(ci);
+    double u = unit_len(ci), strip = double(E.c2) * Math::degree();
+    RhumbLine ln = r.Line(lat1, double(k1), azi);
+    double a, b, c; ln.Position(double(sa) * u, a, b, c); ln.Position(double(sa) * u, a, b);
+    RhumbLine cp(ln); cp.GenPosition(double(sa) * u, RhumbLine::ALL | RhumbLine::LONG_UNROLL, a, b, c);
+    DirOut o; o.lat2 = o.lon2 = o.S12 = o.lat2u = o.lon2u = o.S12u = vt::sentinel(SENT);
+    ln.Position(double(sb) * u, o.lat2, o.lon2, o.S12);
+    cp.GenPosition(double(sb) * u, RhumbLine::ALL | RhumbLine::LONG_UNROLL, o.lat2u, o.lon2u, o.S12u);
+    DirOut f = do_direct(ci, lat1, double(k1), azi, double(sb) * u);      // the same problem without a history
+    o.pe = f.pe && same3(o.lat2, o.lon2, o.S12, f.lat2, f.lon2, f.S12);
+    o.ue = f.ue && same3(o.lat2u, o.lon2u, o.S12u, f.lat2u, f.lon2u, f.S12u)
+        && vt::bits(ln.Latitude()) == vt::bits(double(lat1)) && vt::bits(cp.Longitude()) == vt::bits(double(k1));
+    Rec q; q.str("e", "ld").i("ci", ci).b("sph", ci <= 1).i("kap", kappa(cfgs()[ci])).i("lat1", lat1).i("k1", k1).i("azi", azi).i("s", sb).i("hist", sa)
+      .i("cl", vt::cls(o.lat2)).i("cn", vt::cls(o.lon2)).i("cu", vt::cls(o.lon2u)).i("cS", vt::cls(o.S12))
+      .b("pe", o.pe).b("ue", o.ue)
+      .li("lat2", pico(o.lat2)).li("lon2", pico(o.lon2)).li("lon2u", pico(o.lon2u)).li("S", pico(o.S12 / strip))
+      .i("dls", sgn(o.lat2 - lat1)).i("dus", sgn(o.lon2u - double(k1)))
+      .b("rng", fabs(o.lat2) <= 90 && (std::isnan(o.lon2) || fabs(o.lon2) <= 180));
+    q.emit();
   }
 }
 
@@ -355,24 +517,39 @@ static const char* region(const Cfg& C, double lata, double latb) {
   if (C.exact && C.f < 0 && (fabs(lata) < 10 || fabs(latb) < 10 || lata * latb < 0)) return "pro-exact-eq";
   return "none";
 }
+// narrower class for the prolate finding, from the same quantities as "reg" (proposed known-finding label, field "kf"):
+//   "vobl-exact"       exact mode, f >= 0.9 (every course; same as reg)
+//   "pro-exact-eq15"   exact mode, prolate, BOTH ends within 15 degrees of the equator
+static const char* kf_class(const Cfg& C, double lata, double latb) {
+  if (C.exact && C.f >= 0.9) return "vobl-exact";
+  if (C.exact && C.f < 0 && fabs(lata) < 15 && fabs(latb) < 15) return "pro-exact-eq15";
+  return "none";
+}
 static int kappa(const Cfg& C) { double k = C.f > 0 ? 1 / (1 - C.f) : 1 - C.f; return int(floor(k + 0.5)); }   // max(a/b, b/a)
 static int series_edge(const Cfg& C) { return !C.exact && fabs(C.f) > 1.0 / 150 * (1 + 1e-12) ? 1 : 0; }
 
+// authalic radius squared in units of 1e-6 L^2 (the scale of an area on this ellipsoid)
+static long long c2q(const EL& E) { return qppm(E.c2 / (E.L * E.L)); }
 static void rec_ell(int ci) {
   const EL& E = ell(ci); const Rhumb& r = rhumb(ci);
   LD A = 4 * PIL * E.c2;
   Geodesic gd(cfgs()[ci].a, cfgs()[ci].f);
-  Rec q; q.str("e", "ell").i("ci", ci).i("ex", cfgs()[ci].exact).i("fc", cfgs()[ci].fc).i("kap", kappa(cfgs()[ci]))
+  Rec q; q.str("e", "ell").i("ci", ci).i("ex", cfgs()[ci].exact).i("fc", cfgs()[ci].fc).i("kap", kappa(cfgs()[ci])).i("c2q", c2q(E))
     .i("dA", qarea((LD)r.EllipsoidArea() - A, E)).i("dAE", qarea((LD)r.EllipsoidArea() - (LD)ellip(ci).Area(), E))
     .i("dAG", qarea((LD)r.EllipsoidArea() - (LD)gd.EllipsoidArea(), E))
     .i("dQ", qlen((LD)ellip(ci).QuarterMeridian() - E.Q, E))
     .b("insp", r.EquatorialRadius() == cfgs()[ci].a && r.Flattening() == cfgs()[ci].f);
+  // members of the constructor family: default argument, singleton (area and inspectors)
+  const Rhumb* dr = default_rhumb(ci);
+  q.i("dfl", dr ? (vt::bits(dr->EllipsoidArea()) == vt::bits(r.EllipsoidArea()) && dr->EquatorialRadius() == cfgs()[ci].a && dr->Flattening() == cfgs()[ci].f ? 1 : 0) : -1);
+  const Rhumb& wg = Rhumb::WGS84();
+  q.i("wg", is_wgs84_series(ci) ? (vt::bits(wg.EllipsoidArea()) == vt::bits(r.EllipsoidArea()) && wg.EquatorialRadius() == cfgs()[ci].a && wg.Flattening() == cfgs()[ci].f ? 1 : 0) : -1);
   q.emit();
 }
 
 struct Prev { bool have = false; InvOut inv; DirOut dir; };
 
-static void rec_inv(int ci, int g, double lat1, double lon1, double lat2, double lon2, Prev& pv) {
+static void rec_inv(int ci, int g, double lat1, double lon1, double lat2, double lon2, Prev& pv, int msk) {
   const EL& E = ell(ci); const Cfg& C = cfgs()[ci];
   InvOut o = do_inverse(ci, lat1, lon1, lat2, lon2);
   InvOut w = do_inverse(ci, lat2, lon2, lat1, lon1);
@@ -383,7 +560,7 @@ static void rec_inv(int ci, int g, double lat1, double lon1, double lat2, double
   if (string(tie) != "none") lon12 = signbit(o.azi12) ? -180 : 180;
   Ref rf = ref_inverse(E, lat1, lat2, lon12);
   Rec r; r.str("e", "inv").i("ci", ci).i("ex", C.exact).i("fc", C.fc).i("kap", kappa(C)).i("se", series_edge(C)).i("g", g)
-    .str("in", hx({lat1, lon1, lat2, lon2})).str("reg", region(C, lat1, lat2))
+    .str("in", hx({lat1, lon1, lat2, lon2})).str("reg", region(C, lat1, lat2)).str("kf", kf_class(C, lat1, lat2)).i("c2q", c2q(E))
     .str("tie", tie).i("sl", lon_sign(lon1, lon2)).i("rk", rf.kind)
     .i("cs", vt::cls(o.s12)).i("ca", vt::cls(o.azi12)).i("cS", vt::cls(o.S12))
     .i("azx", azx(o.azi12)).i("azs", sgnbit(o.azi12)).i("aq", qudeg(fabs(o.azi12)))
@@ -425,15 +602,22 @@ static void rec_inv(int ci, int g, double lat1, double lon1, double lat2, double
      .i("xS", std::isfinite(o.S12) && std::isfinite(pv.inv.S12) ? qarea(fabsl((LD)o.S12 - (LD)pv.inv.S12), E) : -1)
      .b("xc", vt::cls(o.s12) == vt::cls(pv.inv.s12) && vt::cls(o.azi12) == vt::cls(pv.inv.azi12) && vt::cls(o.S12) == vt::cls(pv.inv.S12));
   } else r.b("xp", false).i("xse", 0).i("xs", -1).i("xN", -1).i("xE", -1).i("xS", -1).b("xc", true);
+  // every call form of the inverse problem; constructor family
+  inv_forms(r, rhumb(ci), msk, lat1, lon1, lat2, lon2);
+  { long long dfl = -1, wg = -1; double a, b, c;
+    if (const Rhumb* dr = default_rhumb(ci)) { a = b = c = vt::sentinel(SENT); dr->Inverse(lat1, lon1, lat2, lon2, a, b, c); dfl = same3(a, b, c, o.s12, o.azi12, o.S12); }
+    if (is_wgs84_series(ci)) { a = b = c = vt::sentinel(SENT); Rhumb::WGS84().Inverse(lat1, lon1, lat2, lon2, a, b, c); wg = same3(a, b, c, o.s12, o.azi12, o.S12); }
+    r.i("dfl", dfl).i("wg", wg); }
   r.emit();
   pv.have = true; pv.inv = o;
 }
 
-static void rec_dir(int ci, int g, double lat1, double lon1, double azi12, double s12, Prev& pv) {
+static void rec_dir(int ci, int g, double lat1, double lon1, double azi12, double s12, Prev& pv, int msk) {
   const EL& E = ell(ci); const Cfg& C = cfgs()[ci];
   DirOut o = do_direct(ci, lat1, lon1, azi12, s12);
   Rec r; r.str("e", "dir").i("ci", ci).i("ex", C.exact).i("fc", C.fc).i("kap", kappa(C)).i("se", series_edge(C)).i("g", g)
     .str("in", hx({lat1, lon1, azi12, s12})).str("reg", region(C, lat1, std::isfinite(o.lat2) ? o.lat2 : lat1))
+    .str("kf", kf_class(C, lat1, std::isfinite(o.lat2) ? o.lat2 : lat1)).i("c2q", c2q(E))
     .i("cl", vt::cls(o.lat2)).i("cn", vt::cls(o.lon2)).i("cu", vt::cls(o.lon2u)).i("cS", vt::cls(o.S12))
     .b("pe", o.pe).b("ue", o.ue).b("pst", fabs(lat1) == 90).b("s0", s12 == 0)
     .b("rng", fabs(o.lat2) <= 90 && (std::isnan(o.lon2) || fabs(o.lon2) <= 180));
@@ -493,6 +677,23 @@ static void rec_dir(int ci, int g, double lat1, double lon1, double azi12, doubl
      .i("xS", xf && std::isfinite(o.S12) && std::isfinite(pv.dir.S12) ? qarea(fabsl((LD)o.S12 - (LD)pv.dir.S12), E) : -1)
      .i("xl2", std::isfinite(o.lat2) && std::isfinite(pv.dir.lat2) ? qlen(fabsl(E.merid(o.lat2) - E.merid(pv.dir.lat2)), E) : -1);
   } else r.b("xp", false).i("xse", 0).b("xc", true).i("xd", -1).i("xS", -1).i("xl2", -1);
+  // every call form of the direct problem; constructor family; inspectors of the line object
+  dir_forms(r, rhumb(ci), msk, lat1, lon1, azi12, s12);
+  { long long dfl = -1, wg = -1; double a, b, c;
+    if (const Rhumb* dr = default_rhumb(ci)) { a = b = c = vt::sentinel(SENT); dr->Direct(lat1, lon1, azi12, s12, a, b, c); dfl = same3(a, b, c, o.lat2, o.lon2, o.S12); }
+    if (is_wgs84_series(ci)) { a = b = c = vt::sentinel(SENT); Rhumb::WGS84().Direct(lat1, lon1, azi12, s12, a, b, c); wg = same3(a, b, c, o.lat2, o.lon2, o.S12); }
+    r.i("dfl", dfl).i("wg", wg);
+    RhumbLine ln = rhumb(ci).Line(lat1, lon1, azi12);
+    RhumbLine::BaseClass const& base = rhumb(ci);
+    // a line object has no history: after other positions, and through a copy, the same s12 gives the same point
+    { double p, q, t; ln.Position(s12 / 2, p, q, t); ln.GenPosition(-s12, RhumbLine::ALL | RhumbLine::LONG_UNROLL, p, q, t);
+      RhumbLine cp(ln); a = b = c = vt::sentinel(SENT); ln.Position(s12, a, b, c);
+      p = q = t = vt::sentinel(SENT); cp.Position(s12, p, q, t);
+      r.b("lre", same3(a, b, c, o.lat2, o.lon2, o.S12) && same3(p, q, t, o.lat2, o.lon2, o.S12)); }
+    r.b("linsp", vt::bits(ln.Latitude()) == vt::bits(lat1) && vt::bits(ln.Longitude()) == vt::bits(lon1)
+                 && fabs(ln.Azimuth()) <= 180 && remainderl((LD)ln.Azimuth() - (LD)azi12, 360.0L) == 0
+                 && ln.EquatorialRadius() == base.EquatorialRadius() && ln.Flattening() == base.Flattening()
+                 && ln.EquatorialRadius() == C.a && ln.Flattening() == C.f); }
   r.emit();
   pv.have = true; pv.dir = o;
 }
@@ -503,7 +704,7 @@ static void do_record(uint64_t seed, long long n) {
   for (int ci = 0; ci < NC; ++ci) rec_ell(ci);
   // problem index -> configuration(s): pairs (series, exact) for fc <= 1, single exact configurations otherwise
   const vector<vector<int>> groups = {{0, 1}, {2, 3}, {2, 3}, {2, 3}, {4, 5}, {6, 7}, {8, 9}, {10, 11}, {12, 13}, {20, 21},
-                                      {14}, {15}, {14}, {15}, {16}, {17}, {18}, {19}};
+                                      {14}, {15}, {14}, {15}, {16}, {17}, {18}, {19}, {22}, {23}};
   for (long long it = 0; it < n; ++it) {
     const vector<int>& grp = groups[size_t(g.range(0, (long long)groups.size() - 1))];
     const EL& E = ell(grp[0]);
@@ -528,7 +729,7 @@ static void do_record(uint64_t seed, long long n) {
         case 9: lat1 = double(g.range(-89, 89)); lat2 = double(g.range(-89, 89)); lon1 = double(g.range(-180, 180)); lon2 = double(g.range(-180, 180)); break;
         default: break;
       }
-      for (int ci : grp) rec_inv(ci, k, lat1, lon1, lat2, lon2, pv);
+      for (int ci : grp) rec_inv(ci, k, lat1, lon1, lat2, lon2, pv, int((it / 2) % 64));
     } else {
       int k = int(g.range(0, 9));
       double lat1 = g.uni(-89.9, 89.9), lon1 = g.uni(-180, 180), azi = g.uni(-180, 180), s12 = g.uni(-2.5, 2.5) * Q;
@@ -547,7 +748,7 @@ static void do_record(uint64_t seed, long long n) {
         case 9: lat1 = double(g.range(-89, 89)); lon1 = double(g.range(-540, 540)); azi = 15.0 * double(g.range(-12, 12)); s12 = double(g.range(-200, 200)) * mdeg; break;
         default: break;
       }
-      for (int ci : grp) rec_dir(ci, k, lat1, lon1, azi, s12, pv);
+      for (int ci : grp) rec_dir(ci, k, lat1, lon1, azi, s12, pv, int((it / 2) % 64));
     }
   }
 }
@@ -561,6 +762,9 @@ int main(int argc, char** argv) {
       auto t = vt::split(line); if (t.empty()) continue;
       if (t[0] == "li" && t.size() >= 7) do_li(t);
       else if (t[0] == "ld" && t.size() >= 6) do_ld(t);
+      else if (t[0] == "lp" && t.size() >= 7) do_lp(t);
+      else if (t[0] == "lm" && t.size() >= 8) do_lm(t);
+      else if (t[0] == "im" && t.size() >= 9) do_im(t);
     }
     return 0;
   }
